@@ -5,6 +5,7 @@ CONSTANTS
   MaxChain = 2
   MaxWrites = 5
   MaxReopens = 1
+  DevStaleStamp = FALSE
   DevF7 = FALSE
 INVARIANTS TypeOK ReopenSeesPersisted ChainMatchesFile ChainBounded AgesOK MemoryCoversFile FilterSound
 PROPERTIES PersistIsCurrent
